@@ -19,5 +19,8 @@ def main(tier, replay=None):
     sc.replay_behaviours("N4W3S5", {"N": 4, "Workers": 3, "Steps": 5, "MaxPn": 16}, 80 if q else 1200, 20)
     from harness.checks import runner as R
     R.run(sc, tier)
+    # the unmodified scheduler() with a real process pool and real moves: exact step count, every result consumed once, also when the
+    # whole session is SIGKILLed and the run restarted (with more steps)
+    sc.real_pool_runs(S.real_pool_specs(sc.chk.seed + 78, 10 if q else 80, kills=True, n_values=(3, 4) if q else (3, 4, 5)))
     return sc.finish("Infretis.tla behaviours (step counting, restarts with more steps) replayed on the real code; Runner.tla completion "
                      "orders replayed on the real scheduler()/aiorunner/future_list under a scripted executor; distinct by action sequence")
